@@ -17,10 +17,10 @@ package core
 // evaluated; nothing is asserted about how far the repair rewinds.
 
 import (
+	"context"
 	"crypto/ecdsa"
 	"fmt"
 	"log/slog"
-	"context"
 	"math/big"
 	"math/rand"
 	"os"
@@ -223,25 +223,25 @@ func c39DrawScenario(rt *rapid.T, maxL int) *c39Scenario {
 // history
 
 type c39Point struct {
-	event int              // number of key-value events issued when the files were captured
+	event int               // number of key-value events issued when the files were captured
 	files *crashfs.Snapshot // freezer directory at that instant
 	label string
 }
 
 type c39Hist struct {
-	sc        *c39Scenario
-	gspec     *Genesis
-	option    *BlockChainConfig
-	canon     types.Blocks
-	side      types.Blocks
-	klog      *crashkv.Log
-	points    []c39Point
+	sc         *c39Scenario
+	gspec      *Genesis
+	option     *BlockChainConfig
+	canon      types.Blocks
+	side       types.Blocks
+	klog       *crashkv.Log
+	points     []c39Point
 	commitFrom int // log length right before triedb.Commit was called
-	commitAt  int // log length right after triedb.Commit returned (0 = never)
-	setHeadAt int // log length right before SetHead was called (0 = never)
-	byHash    map[common.Hash]*types.Block
-	onCanon   map[common.Hash]bool
-	excluded  int // assertions skipped because of a known finding
+	commitAt   int // log length right after triedb.Commit returned (0 = never)
+	setHeadAt  int // log length right before SetHead was called (0 = never)
+	byHash     map[common.Hash]*types.Block
+	onCanon    map[common.Hash]bool
+	excluded   int // assertions skipped because of a known finding
 
 	refAccounts, refSlots int // size of the head state of the node that never crashed
 
@@ -251,9 +251,9 @@ type c39Hist struct {
 // Classes of suspected geth defects (notes/C39.md); honoured only when listed in
 // known_findings.json. They are registered for both tests of this file.
 const (
-	c39ClassReorgGap     = "reorg-markers-deleted-before-head-update"
-	c39ClassSetHeadAbove = "sethead-crash-leaves-canonical-above-head"
-	c39ClassGenesisInit  = "pathdb-genesis-init-crash-unopenable"
+	c39ClassReorgGap         = "reorg-markers-deleted-before-head-update"
+	c39ClassSetHeadAbove     = "sethead-crash-leaves-canonical-above-head"
+	c39ClassGenesisInit      = "pathdb-genesis-init-crash-unopenable"
 	c39ClassGenesisStateless = "pathdb-rewind-to-genesis-crash-stateless-head"
 )
 
@@ -297,7 +297,7 @@ var (
 	c39StoreAddr = common.HexToAddress("0xc0de000000000000000000000000000000000039")
 	c39StoreCode = []byte{
 		0x60, 0x00, 0x35, // PUSH1 0 CALLDATALOAD            [n]
-		0x5b,             // JUMPDEST (3)
+		0x5b,                         // JUMPDEST (3)
 		0x80, 0x15, 0x60, 0x1a, 0x57, // DUP1 ISZERO PUSH1 end JUMPI
 		0x60, 0x01, 0x90, 0x03, // PUSH1 1 SWAP1 SUB           [n-1]
 		0x60, 0x20, 0x35, // PUSH1 32 CALLDATALOAD           [n-1 salt]
@@ -1067,7 +1067,9 @@ func c39SideClass(sc *c39Scenario) string {
 type c39Collector struct{ msgs []string }
 type c39Collected struct{ msg string }
 
-func (c *c39Collector) Fatalf(format string, a ...any) { panic(c39Collected{fmt.Sprintf(format, a...)}) }
+func (c *c39Collector) Fatalf(format string, a ...any) {
+	panic(c39Collected{fmt.Sprintf(format, a...)})
+}
 
 func (c *c39Collector) try(f func()) {
 	defer func() {
@@ -1093,9 +1095,9 @@ func c39Fixed() []*c39Scenario {
 		{Scheme: rawdb.PathScheme, Snapshots: true, CanonL: 12, ForkAt: 6, SideLen: 4, Commit: 8, Finalized: 9, Pivot: u(4), TxBlocks: 0x3c3c},
 		// hash scheme, contract storage, a batch is full after every 1-2 trie nodes: the explicit
 		// commit is spread over dozens of batch writes and each of them is a crash point
-		{Scheme: rawdb.HashScheme, Snapshots: false, CanonL: 7, Commit: 5, Finalized: 3, TxBlocks: 0x7f, Slots: 6, Infl: 512},
+		{Scheme: rawdb.HashScheme, Snapshots: false, CanonL: 5, Commit: 4, TxBlocks: 0x1f, Slots: 5, Infl: 512},
 		// path scheme, SetHead to a block below the persisted state (rollback through state histories)
-		{Scheme: rawdb.PathScheme, Snapshots: false, CanonL: 9, Commit: 7, Finalized: 2, SetHead: u(3), TxBlocks: 0x1ff, Slots: 3},
+		{Scheme: rawdb.PathScheme, Snapshots: false, CanonL: 7, Commit: 6, SetHead: u(2), TxBlocks: 0x7f, Slots: 3},
 	}
 }
 
